@@ -69,7 +69,12 @@ func reflectMainPrePatch(path string) (string, error) {
 // reflectMainPostPatch populates the name mapping with the final obfuscated->real name
 // mappings after all packages have been analyzed.
 func reflectMainPostPatch(file []byte, lpkg *listedPackage, pkg pkgCache) []byte {
-	obfVarName := hashWithPackage(lpkg, "_originalNamePairs")
+	// When GOGARBLE does not match the main package, its source is printed
+	// with the original identifiers, so the injected variable keeps its name.
+	obfVarName := "_originalNamePairs"
+	if lpkg.ToObfuscate {
+		obfVarName = hashWithPackage(lpkg, obfVarName)
+	}
 	namePairs := fmt.Appendf(nil, "%s = []string{", obfVarName)
 
 	keys := slices.Sorted(maps.Keys(pkg.ReflectObjectNames))
